@@ -114,17 +114,20 @@ F2Case == ProjectCase("fk-range-plural",
 
 \* F3: the target is defined / null / absent in the referring locale, under several inherits maps
 LocTag == [en |-> <<"e">>, fr |-> <<"f">>, de |-> <<"d">>]
-AEntry(l, p) == IF p = "null" THEN [k |-> "null"] ELSE Val(<<T(LocTag[l] \o <<"a","SP">>), V(X)>>)
+\* the target itself refers to a third key whose text differs per locale: a defaulted target must bring along the text of
+\* the locale it comes from
+AEntry(l, p) == IF p = "null" THEN [k |-> "null"] ELSE Val(<<T(LocTag[l] \o <<"a","SP">>), V(X), T(<<"SP">>), Fk(<<"c">>, <<>>)>>)
+CEntry(l) == Val(<<T(LocTag[l] \o <<"c">>)>>)
 BEntry(l) == Val(<<T(LocTag[l] \o <<"b","COLON">>), Fk(<<"a">>, <<ArgP(X, <<T(<<"A">>)>>)>>)>>)
 F3Vals(pf, pd) ==
     [l \in {"en", "fr", "de"} |->
         LET p == IF l = "en" THEN "def" ELSE IF l = "fr" THEN pf ELSE pd IN
-        (IF p = "abs" THEN << >> ELSE ("a" :> AEntry(l, p))) @@ ("b" :> BEntry(l))]
+        (IF p = "abs" THEN << >> ELSE ("a" :> AEntry(l, p))) @@ ("b" :> BEntry(l)) @@ ("c" :> CEntry(l))]
 InhChoices3 == { << >>, ("de" :> "fr"), ("fr" :> "de"), ("de" :> "fr") @@ ("fr" :> "de"), ("de" :> "en") }
 F3Cases ==
     { ProjectCase("fk-fallback",
                   [def |-> "en", locs |-> <<"en", "fr", "de">>, inh |-> ih, vals |-> F3Vals(pf, pd)],
-                  [k \in {"a", "b"} |-> k],
+                  [k \in {"a", "b", "c"} |-> k],
                   IF pf = "abs" \/ pd = "abs" THEN "may" ELSE "none")
       : pf \in P3, pd \in P3, ih \in InhChoices3 }
 
